@@ -111,6 +111,37 @@ type testifyRun struct {
 	// ambiguous: the history reached a point where testify's Anything-matches-a-missing-argument
 	// rule decides the outcome; from there on nothing is judged
 	ambiguous bool
+	// shadow: a second instance of the same mock type, configured alongside (never judged itself)
+	shadow reflect.Value
+}
+
+// shadowExpect registers an unrelated expectation for the same method on the second instance.
+func (r *testifyRun) shadowExpect(m *methodInfo, op Op, task, oi int) {
+	g := &Gen{R: NewRng(op.Seed ^ 0x51ad0), Prefix: fmt.Sprintf("sh%d.%d", task, oi), NilRate: r.cs.NilRate, Base: 90000000 + (task*64+oi+1)*1000}
+	args := genArgs(m, g, op.NArgs-1)
+	called := r.calledArgs(m, args)
+	safeCall(func() {
+		exp := r.shadow.MethodByName("EXPECT").Call(nil)[0]
+		ins := make([]reflect.Value, len(called))
+		for i, v := range called {
+			switch {
+			case identityOnly(v.Type()):
+				ins[i] = reflect.ValueOf(mock.Anything)
+			case !v.IsValid() || (v.Kind() == reflect.Interface && v.IsNil()):
+				ins[i] = reflect.Zero(reflect.TypeOf((*interface{})(nil)).Elem())
+			default:
+				ins[i] = v
+			}
+		}
+		callV := exp.MethodByName(m.Name).Call(ins)[0]
+		if n := m.Type.NumOut(); n > 0 {
+			outs := make([]reflect.Value, n)
+			for i := range outs {
+				outs[i] = g.Value(m.Type.Out(i))
+			}
+			callV.MethodByName("Return").Call(outs)
+		}
+	})
 }
 
 func (r *testifyRun) fail(v *Violation) {
@@ -177,6 +208,11 @@ func (r *testifyRun) register(task, oi int, op Op) {
 		return
 	}
 	site := r.reg.Variant
+	if r.shadow.IsValid() && op.Seed&2 != 0 {
+		r.shadowExpect(m, op, task, oi) // before the judged instance's registration
+	} else if r.shadow.IsValid() && op.Seed&4 != 0 {
+		defer r.shadowExpect(m, op, task, oi) // after it
+	}
 	g := &Gen{R: NewRng(op.Seed), Prefix: fmt.Sprintf("a%d.%d", task, oi), NilRate: r.cs.NilRate, Base: (task*64 + oi + 1) * 100000}
 	args := genArgs(m, g, op.NArgs-1)
 	called := r.calledArgs(m, args)
@@ -610,6 +646,11 @@ func RunTestify(reg *Registration, cs *Case) (*Violation, RunStats) {
 	r.resGen = &Gen{R: NewRng(cs.Seed ^ 0xbeef), Prefix: "res", NilRate: cs.NilRate}
 	mockObj := reg.New(r.t)
 	r.mv = reflect.ValueOf(mockObj)
+	if cs.Seed&1 == 1 {
+		// two instances of one mock type are independent of each other
+		r.shadow = reflect.ValueOf(reg.New(&RecT{}))
+		r.tags["fault:second-instance-of-the-same-mock"] = true
+	}
 	for oi, op := range cs.Setup {
 		if op.Kind == "expect" {
 			r.register(-1, oi, op)
